@@ -321,7 +321,9 @@ macro_rules! axis_float_check {
     ($c:expr, $t:ty, $u:expr) => {{
         let c: &AxisWCase = $c;
         let sc = (2.0 as $t).powi(-(c.scale_pow as i32 % 8));
-        let mut data: Vec<$t> = c.data.iter().map(|&v| v as $t * sc).collect();
+        // scale_pow >= 8 selects the ill-conditioned class: large common offset, small spread
+        let off: $t = if c.scale_pow >= 8 { (2.0 as $t).powi(if std::mem::size_of::<$t>() == 4 { 9 } else { 20 + (c.scale_pow as i32 % 5) }) } else { 0.0 };
+        let mut data: Vec<$t> = c.data.iter().map(|&v| off + v as $t * sc * (if c.scale_pow >= 8 { 1.0 / 2048.0 } else { 1.0 })).collect();
         if !data.is_empty() {
             let len = data.len();
             for &p in &c.non_finite.inf_at {
@@ -495,7 +497,7 @@ fn axisw_strategy() -> impl Strategy<Value = AxisWCase> {
                 weights,
                 1usize..3,
                 any::<bool>(),
-                0u8..8,
+                0u8..11,
                 0u8..5,
                 prop_oneof![
                     5 => Just(NonFinite::default()),
